@@ -8,6 +8,6 @@ rm -rf "$d"; mkdir -p "$d"
 git -C /repo worktree add --detach "$d/repo" HEAD >/dev/null 2>&1
 rsync -a --exclude target --exclude build.log /verif/sim/ "$d/sim/"
 sed -i "s#/repo/#$d/repo/#g" "$d/sim/Cargo.toml"
-sed -i "s#/verif/sim/target#$d/sim/target#" "$d/sim/.cargo/config.toml"
+true
 mkdir -p "$d/out"
 echo "$d"
